@@ -297,7 +297,8 @@ class VideoPlayer(HTMLHandlerBase):
             licenseUrl: str | None = None
             if options.marlin and options.marlin.licenseUrl:
                 licenseUrl = options.marlin.licenseUrl
-            elif stream_model.marlin_la_url:
+            elif stream_model is not None and stream_model.marlin_la_url:
+                # a multi-period stream has no stream model
                 licenseUrl = stream_model.marlin_la_url
             if licenseUrl:
                 context["source"] = f'{licenseUrl}#{context["source"]}'
